@@ -54,6 +54,31 @@ def strategy(tier):
     return _case()
 
 
+EXHAUSTIVE_NOTE = ("every zero / non-zero pattern of the full cell array (ghost cells included) on a 2-cell Grid1D, CylindricalGrid1D, "
+                   "SphericalGrid1D (16 patterns each), a 1x1 and a 2x1 Grid2D / PolarGrid2D (512 / 4096 patterns) - the zero-handling "
+                   "branches of geometric and harmonic means for all adjacency patterns")
+
+
+def enumerate_cases(tier):
+    import itertools
+    meshes = [('Grid1D', [[0.0, 0.3, 1.0]]), ('CylindricalGrid1D', [[0.5, 0.8, 1.5]]), ('SphericalGrid1D', [[0.0, 0.4, 1.0]]),
+              ('Grid2D', [[0.0, 1.0], [0.0, 0.5]]), ('PolarGrid2D', [[0.5, 1.5], [0.0, 1.0]]),
+              ('Grid2D', [[0.0, 0.3, 1.0], [0.0, 0.5]]), ('CylindricalGrid2D', [[0.5, 0.8, 1.5], [0.0, 0.5]])]
+    for name, faces in meshes:
+        d = dims_of(faces)
+        fs = full_shape(d)
+        n = int(np.prod(fs))
+        base = gen.expand('pos', 5, fs, 0.1, 5.0)
+        anyf = gen.expand('quarter', 6, fs).tolist()
+        u = [gen.expand('int', 7 + i, sh).tolist() for i, sh in enumerate(__import__('pbt.common', fromlist=['face_shapes']).face_shapes(d))]
+        g = dict(name=name, faces=faces, spacing=['random'] * len(d))
+        for bits in itertools.product((0, 1), repeat=n):
+            if n > 9 and sum(bits) > 0 and (hash(bits) % 1 != 0):
+                continue
+            pos = (base * np.array(bits, float).reshape(fs)).tolist()
+            yield dict(grid=g, pos=pos, zmode='enum', any=anyf, u=u, lin=[0.5, 1.0, -2.0][:len(d) + 1])
+
+
 def budget(tier):
     return 4000 if tier == "quick" else 40000
 
